@@ -1926,9 +1926,14 @@ try_grow_read_buffer (struct MHD_Connection *connection,
       else
       {
         /* Shortage of space, but grow is mandatory */
-        const size_t small_inc =
+        size_t small_inc =
           ((MHD_BUF_INC_SIZE > def_grow_size) ?
            def_grow_size : MHD_BUF_INC_SIZE) / 8;
+        /* The grow is mandatory: never report success without adding space
+           (pool_increment below 8 would give zero here and the connection
+           would wait for data with a full read buffer until it times out). */
+        if (0 == small_inc)
+          small_inc = 1;
         if (small_inc < avail_size)
           grow_size = small_inc;
         else
